@@ -10,25 +10,41 @@
        {"e":"cancelret","th"}    it returned                        -> Abort
        {"e":"closed","th"}       the subscriber saw its channel closed -> CloseSub
        {"e":"recv","th","k"}     the subscriber read event k        -> Forward
-       {"e":"emitcall","k","sig"} / {"e":"emitret","k"}             -> EmitSig / EmitEnd
+       {"e":"emitcall","k","o","sig"} / {"e":"emitret","k"}         -> EmitSig / EmitEnd
+       {"e":"inject","c","o","sig"}  the harness asks the server side of c to send a message
+                                 addressed (o, sig) that is not of type Event; the write
+                                 itself (InjectMsg) follows at a moment TLC places
+       {"e":"rogue","c","o","sig","vc"}  the harness is about to call unregisterEvent on connection c
+                                 with the user id of the registration connection vc holds for
+                                 (o, sig); the request reaches the mailbox later -> RogueUnreg
+       {"e":"break","c","kind"}  the harness breaks the server -> client direction of its
+                                 own stream c ("eof" / "err"), the client is gone -> BreakWrite
+       {"e":"notice","c"}        the harness lets the server's reader of c see the end -> ReaderNotices
+       {"e":"sendfail","c"}      logged by the harness' stream: a write of the server to c
+                                 failed                             -> SendFail
        {"e":"pt","th","p"}       the thread is about to take step p (inc, key, dec,
                                  read, clear) of SubscribeID / its cancel function:
                                  logged by the gate in front of the step
      hooks
-       {"e":"state","c","sig","hkey","add","val"}  client.State under stateMutex
+       {"e":"state","c","o","sig","hkey","add","val"}  client.State under stateMutex
               -> SubInc / SubKey / UnsubDec / UnsubRead / UnsubClear of a thread of that
                  connection and signal that announced this step (the sign of `add`
                  is no help: the sum of two 63-bit handlers overflows)
-       {"e":"add","n"} {"e":"add_dup"} {"e":"remove","n"} {"e":"remove_unknown"}
-              signal.go under signalsMutex -> ServerReg / ServerUnreg, n = table size
-       {"e":"snapshot","sig","n"}  UpdateSignal under RLock -> EmitStart, n = users
+       {"e":"add","o","c","n"} {"e":"add_dup","o","c"} {"e":"remove","o","c","n"}
+       {"e":"remove_unknown","o","c"}
+              signal.go under signalsMutex, o = the object of the table, c = the connection
+              of the registration, n = table size -> ServerReg / ServerUnreg, and for the
+              removals also FailCleanup (the emitter after io.EOF) / CloserRun (disconnection)
+       {"e":"snapshot","o","sig","n"}  UpdateSignal under RLock -> EmitStart, n = users
      connection taps (a filter called inside the endpoint's dispatch)
-       {"e":"wire","c","t":"ev","sig"} / {"e":"wire","c","t":"rep","ok"} -> Deliver(c)
+       {"e":"wire","c","t":"ev","o","sig"} / {"e":"wire","c","t":"rep","ok"} /
+       {"e":"wire","c","t":"inj","o","sig"}                          -> Deliver(c)
      {"e":"reset"}  a new scenario (fresh object, fresh connections) follows
 
    Not logged, placed by TLC: the request reaching the object's mailbox
-   (SubRPC / UnsubRPC), the server's replies (ServerReply), the Sends of
-   UpdateSignal (SendTo), Again.
+   (SubRPC / UnsubRPC), the server's replies (ServerReply), the successful Sends of
+   UpdateSignal (SendTo), the forwarding goroutine dropping a message that is not
+   an Event, forgetSignalUser calls that find nothing on a dead connection, Again.
    User ids are not compared: the handler ids of the model are drawn in the
    order of the SubKey steps, which is the order of the logged State calls.
 
@@ -47,23 +63,33 @@ TraceLog == TLCGet(2)
 N == TLCGet(3)
 
 \* constants of Signal: the fixed cast of the harness, defined in Signal.tla
-\* (cfg: Threads <- Cast, ConnOf <- CastConn, SigOf <- CastSig, Rounds <- CR99)
+\* (cfg: Threads <- Cast, ConnOf <- CastConn, SigOf <- CastSig, ObjOf <- CastObj, Rounds <- CR99,
+\*  Inject <- InjAny, Failing = {"c3"})
+InjAny == [c : Conns, o : Objects, sig : Signals]
 
-VARIABLES l, want, hint, bad
-tvars == <<vars, l, want, hint, bad>>
+CONSTANT SkipScenarios   \* TRUE: a scenario may also be passed over unexamined (self-test of the
+                         \*   binding: many corrupted scenarios in one run; the consumed ones are
+                         \*   those with a "VIOL" line)
+
+VARIABLES l, want, hint, bad,
+          inj,    \* injections the harness has asked for (logged) whose message the server has
+                  \*   not written yet: the write is a step of its own, placed by TLC
+          rog     \* foreign unregisterEvent calls the harness has announced (logged) that have not
+                  \*   reached the object's mailbox yet
+tvars == <<vars, l, want, hint, bad, inj, rog>>
 
 Ev == TraceLog[l]
 Is(e) == l <= N /\ Ev.e = e
 
-Step == l' = l + 1 /\ UNCHANGED <<want, hint>>
+Step == l' = l + 1 /\ UNCHANGED <<want, hint, inj, rog>>
 
 \* the handler is installed somewhere between the call and the first State call
 TSubCall   == /\ Is("subcall") /\ pc[Ev.th] = "idle" /\ ~want[Ev.th]
-              /\ want' = [want EXCEPT ![Ev.th] = TRUE] /\ l' = l + 1 /\ UNCHANGED <<vars, hint>>
+              /\ want' = [want EXCEPT ![Ev.th] = TRUE] /\ l' = l + 1 /\ UNCHANGED <<vars, hint, inj, rog>>
 TSubLocal(th) == /\ want[th] /\ SubLocal(th)
-                 /\ want' = [want EXCEPT ![th] = FALSE] /\ UNCHANGED <<l, hint>>
+                 /\ want' = [want EXCEPT ![th] = FALSE] /\ UNCHANGED <<l, hint, inj, rog>>
 TPoint     == /\ Is("pt") /\ hint' = [hint EXCEPT ![Ev.th] = Ev.p]
-              /\ l' = l + 1 /\ UNCHANGED <<vars, want>>
+              /\ l' = l + 1 /\ UNCHANGED <<vars, want, inj, rog>>
 TSubAck    == Is("suback") /\ Step /\
               IF Ev.ok = 1 THEN Ack(Ev.th) ELSE (pc[Ev.th] = "failed" /\ UNCHANGED vars)
 TCancel    == Is("cancelcall") /\ CancelReq(Ev.th) /\ Step
@@ -73,7 +99,7 @@ TCancelRet == /\ Is("cancelret")
               /\ \/ Abort(Ev.th) /\ Step
                  \/ /\ pc[Ev.th] = "done" /\ hint[Ev.th] = "lateret"
                     /\ hint' = [hint EXCEPT ![Ev.th] = ""]
-                    /\ l' = l + 1 /\ UNCHANGED <<vars, want>>
+                    /\ l' = l + 1 /\ UNCHANGED <<vars, want, inj, rog>>
 TClosed    == /\ Is("closed")
               /\ \/ CloseSub(Ev.th) /\ Step
                  \/ /\ pc[Ev.th] = "lcancel"                     \* Abort and CloseSub at once
@@ -81,13 +107,25 @@ TClosed    == /\ Is("closed")
                     /\ q' = [q EXCEPT ![Ev.th] = <<>>] /\ pc' = [pc EXCEPT ![Ev.th] = "done"]
                     /\ hint' = [hint EXCEPT ![Ev.th] = "lateret"]
                     /\ l' = l + 1
-                    /\ UNCHANGED <<srv, emv, wire, prox, h, round, nextU, got, obs, want>>
-TRecv      == Is("recv") /\ q[Ev.th] # <<>> /\ Head(q[Ev.th]).k = Ev.k /\ Forward(Ev.th) /\ Step
-TEmitCall  == Is("emitcall") /\ Ev.k = called + 1 /\ EmitSig(Ev.sig) /\ Step
+                    /\ UNCHANGED <<srv, emv, net, prox, h, round, nextU, got, obs, want, inj, rog>>
+TRecv      == /\ Is("recv") /\ q[Ev.th] # <<>> /\ Head(q[Ev.th]).k = Ev.k /\ Forwards(Head(q[Ev.th]))
+              /\ Forward(Ev.th) /\ Step
+\* the forwarding goroutine drops what is not an Event: the subscriber sees nothing
+TDrop(th)  == q[th] # <<>> /\ ~Forwards(Head(q[th])) /\ Forward(th)
+TEmitCall  == Is("emitcall") /\ Ev.k = called + 1 /\ EmitSig(Ev.o, Ev.sig) /\ Step
 TEmitRet   == Is("emitret") /\ Ev.k = em.k /\ EmitEnd /\ Step
-TSnapshot  == Is("snapshot") /\ EmitStart /\ Len(em'.pending) = Ev.n /\ emitted[em.k] = Ev.sig /\ Step
+TSnapshot  == /\ Is("snapshot") /\ EmitStart /\ Len(em'.pending) = Ev.n
+              /\ emitted[em.k] = [o |-> Ev.o, sig |-> Ev.sig] /\ Step
+\* the harness logs its request; the server's write of the message comes later (silent step)
+TInject    == /\ Is("inject") /\ inj' = inj \cup {[c |-> Ev.c, o |-> Ev.o, sig |-> Ev.sig]}
+              /\ l' = l + 1 /\ UNCHANGED <<vars, want, hint, rog>>
+TRogue     == /\ Is("rogue") /\ rog' = rog \cup {[c |-> Ev.c, o |-> Ev.o, sig |-> Ev.sig, vc |-> Ev.vc]}
+              /\ l' = l + 1 /\ UNCHANGED <<vars, want, hint, inj>>
+TBreak     == Is("break") /\ BreakWrite(Ev.c, Ev.kind) /\ Step
+TNotice    == Is("notice") /\ ReaderNotices(Ev.c) /\ Step
+TSendFail  == Is("sendfail") /\ SendFail /\ Head(em.pending).c = Ev.c /\ Step
 
-OnKey(th) == ConnOf[th] = Ev.c /\ SigOf[th] = Ev.sig
+OnKey(th) == ConnOf[th] = Ev.c /\ ObjOf[th] = Ev.o /\ SigOf[th] = Ev.sig
 TState ==
   /\ Is("state") /\ Step
   /\ \E th \in Threads :
@@ -99,33 +137,57 @@ TState ==
                \/ hint[th] = "read" /\ Ev.add = 0 /\ UnsubRead(th)
                \/ hint[th] = "clear" /\ UnsubClear(th)
 
-TAdd       == Is("add") /\ ServerReg /\ Len(regs') = Ev.n /\ Len(regs') = Len(regs) + 1 /\ Step
-TAddDup    == Is("add_dup") /\ ServerReg /\ regs' = regs /\ Step
-TRemove    == Is("remove") /\ ServerUnreg /\ Len(regs') = Ev.n /\ Len(regs') = Len(regs) - 1 /\ Step
-TRemoveUnk == Is("remove_unknown") /\ ServerUnreg /\ regs' = regs /\ Step
+FromConn(o) == mbox[o] # <<>> /\ Head(mbox[o]).c = Ev.c
+TAdd       == /\ Is("add") /\ FromConn(Ev.o) /\ ServerReg(Ev.o) /\ Len(regs'[Ev.o]) = Ev.n
+              /\ Len(regs'[Ev.o]) = Len(regs[Ev.o]) + 1 /\ Step
+TAddDup    == Is("add_dup") /\ FromConn(Ev.o) /\ ServerReg(Ev.o) /\ regs' = regs /\ Step
+\* a registration of connection Ev.c leaves the table of Ev.o: unregisterEvent on the mailbox
+\* goroutine, the emitter after a Send failed with io.EOF, or the closer of a dead connection
+TRemove    == /\ Is("remove") /\ Step
+              /\ \/ FromConn(Ev.o) /\ ServerUnreg(Ev.o)
+                 \/ em.pc = "cleanup" /\ EmitObj = Ev.o /\ em.failed.c = Ev.c /\ FailCleanup
+                 \/ \E x \in clos : x.o = Ev.o /\ x.c = Ev.c /\ CloserRun(x)
+              /\ Len(regs'[Ev.o]) = Ev.n /\ Len(regs'[Ev.o]) = Len(regs[Ev.o]) - 1
+TRemoveUnk == /\ Is("remove_unknown") /\ Step
+              /\ \/ FromConn(Ev.o) /\ ServerUnreg(Ev.o)
+                 \/ em.pc = "cleanup" /\ EmitObj = Ev.o /\ em.failed.c = Ev.c /\ FailCleanup
+              /\ regs' = regs
+\* The disconnect closer of a registration that is gone already finds nothing and changes
+\* nothing; the harness does not log it (it cannot be told from the echo of a removal:
+\* RemoveHandler runs the closer of the handler it removes).  The same holds for the
+\* emitter's clean-up when a closer was faster.
+TQuietForget == \/ \E x \in clos : ~Known(x.o, x.u, x.c) /\ CloserRun(x)
+                \/ em.pc = "cleanup" /\ ~Known(EmitObj, em.failed.u, em.failed.c) /\ FailCleanup /\ regs' = regs
 
 TWire ==
   /\ Is("wire") /\ Step
   /\ wire[Ev.c] # <<>>
   /\ LET m == Head(wire[Ev.c]) IN
-       IF Ev.t = "ev" THEN m.t = "ev" /\ m.sig = Ev.sig
-       ELSE m.t = "rep" /\ (m.ok <=> Ev.ok = 1)
+       CASE Ev.t = "ev" -> m.t = "ev" /\ m.o = Ev.o /\ m.sig = Ev.sig
+         [] Ev.t = "inj" -> m.t = "inj" /\ m.o = Ev.o /\ m.sig = Ev.sig
+         [] OTHER -> m.t = "rep" /\ (m.ok <=> Ev.ok = 1)
   /\ Deliver(Ev.c)
 
 \* The harness ends a scenario only after every subscription was cancelled and seen
 \* closed (it waits T_BOUND for that) and a call on every connection has returned:
 \* nothing can be in flight any more.  {"e":"quiet"} is logged where the harness has
 \* waited (T_BOUND) for every event it expects to reach the subscribers.
-Drained == /\ mbox = <<>> /\ srep.c = "" /\ em.pc = "idle"
+Drained == /\ \A o \in Objects : mbox[o] = <<>> /\ srep[o].c = ""
+           /\ em.pc = "idle" /\ clos = {}
            /\ \A c \in Conns : wire[c] = <<>>
-TQuiet == /\ Is("quiet") /\ Drained /\ \A t \in Threads : q[t] = <<>>
+TQuiet == /\ Is("quiet") /\ Drained /\ inj = {} /\ rog = {} /\ \A t \in Threads : q[t] = <<>>
           /\ Step /\ UNCHANGED vars
 TReset ==
   /\ Is("reset") /\ l' = l + 1
-  /\ Drained /\ \A t \in Threads : pc[t] \in {"idle", "done", "failed"} /\ ~want[t]
-  /\ regs' = <<>> /\ mbox' = <<>> /\ srep' = NoReply /\ em' = [pc |-> "idle", k |-> 0, pending |-> <<>>]
+  /\ Drained /\ \A t \in Threads : pc[t] \in {"idle", "done", "failed", "dead"} /\ ~want[t]
+  \* a connection the harness broke has been seen to end before the scenario is over
+  /\ \A c \in Conns : wst[c] \in {"up", "down"}
+  /\ regs' = [o \in Objects |-> <<>>] /\ mbox' = [o \in Objects |-> <<>>]
+  /\ srep' = [o \in Objects |-> NoReply]
+  /\ em' = [pc |-> "idle", k |-> 0, pending |-> <<>>, failed |-> NoEntry]
   /\ called' = 0 /\ started' = 0 /\ completed' = 0 /\ emitted' = <<>>
-  /\ wire' = [c \in Conns |-> <<>>]
+  /\ wire' = [c \in Conns |-> <<>>] /\ wst' = [c \in Conns |-> "up"] /\ clos' = {} /\ injected' = {}
+  /\ rogued' = {}
   /\ cnt' = [x \in Keys |-> 0] /\ hk' = [x \in Keys |-> 0] /\ lock' = [x \in Keys |-> NoThread]
   /\ pc' = [t \in Threads |-> "idle"] /\ h' = [t \in Threads |-> 0] /\ round' = [t \in Threads |-> 1]
   /\ nextU' = 0
@@ -133,25 +195,46 @@ TReset ==
   /\ closed' = [t \in Threads |-> FALSE]
   /\ ackAt' = [t \in Threads |-> -1] /\ cancelled' = [t \in Threads |-> FALSE]
   /\ cancelAt' = [t \in Threads |-> 0] /\ unregAcked' = {} /\ lateSend' = FALSE /\ devUsed' = {}
+  /\ removed' = {} /\ dblrm' = FALSE /\ UNCHANGED probe
+  /\ inj = {} /\ inj' = {} /\ rog = {} /\ rog' = {}
   /\ want' = [t \in Threads |-> FALSE] /\ hint' = [t \in Threads |-> ""]
+
+\* pass over the scenario that starts at line l (the model is in its reset state there)
+NextReset(i) == CHOOSE j \in i..N : TraceLog[j].e = "reset" /\ \A x \in i..(j - 1) : TraceLog[x].e # "reset"
+TSkip == /\ SkipScenarios /\ l <= N /\ (IF l = 1 THEN TRUE ELSE TraceLog[l - 1].e = "reset")
+         /\ l' = NextReset(l) + 1 /\ bad' = {}
+         /\ UNCHANGED <<vars, want, hint, inj, rog>>
 
 \* silent steps
 Silent == \/ \E th \in Threads : TSubLocal(th)
-          \/ /\ UNCHANGED <<l, want, hint>>
-             /\ \/ \E th \in Threads : SubRPC(th) \/ UnsubRPC(th) \/ Again(th)
-                \/ SendTo \/ ServerReply
+          \/ /\ \E i \in inj : InjectMsg(i) /\ inj' = inj \ {i}
+             /\ UNCHANGED <<l, want, hint, rog>>
+          \* the announced call reaches the mailbox: it names a registration of connection r.vc for
+          \* (r.o, r.sig) if there is one at that moment, else a user id nobody has
+          \/ /\ \E r \in rog :
+                  /\ rog' = rog \ {r}
+                  /\ \/ \E i \in 1..Len(regs[r.o]) : /\ regs[r.o][i].c = r.vc /\ regs[r.o][i].sig = r.sig
+                                                      /\ RogueUnreg(r.c, r.o, i)
+                     \/ RogueReq(r.c, r.o, r.sig, 0)
+             /\ UNCHANGED <<l, want, hint, inj>>
+          \/ /\ UNCHANGED <<l, want, hint, inj, rog>>
+             /\ \/ \E th \in Threads : SubRPC(th) \/ UnsubRPC(th) \/ Again(th) \/ TDrop(th)
+                \/ SendTo \/ \E o \in Objects : ServerReply(o)
+                \/ TQuietForget
 
 TNext == \/ TPoint \/ TSubCall \/ TSubAck \/ TCancel \/ TCancelRet \/ TClosed \/ TRecv
          \/ TEmitCall \/ TEmitRet \/ TSnapshot \/ TState
          \/ TAdd \/ TAddDup \/ TRemove \/ TRemoveUnk \/ TWire \/ TQuiet
+         \/ TInject \/ TRogue \/ TBreak \/ TNotice \/ TSendFail
          \/ Silent
 \* The property invariants are evaluated on every state; what was violated is
 \* accumulated in `bad` and printed when the scenario has been consumed completely
 \* (a branch of TLC's search that guesses the unlogged steps wrongly dies before).
 TStep == \/ TNext /\ bad' = bad \cup Violated'
          \/ TReset /\ bad' = {} /\ PrintT(<<"VIOL", ToJson([l |-> l, bad |-> bad, dev |-> devUsed])>>)
+         \/ TSkip
 TInit == Init /\ l = 1 /\ want = [t \in Threads |-> FALSE] /\ hint = [t \in Threads |-> ""]
-         /\ bad = {}
+         /\ bad = {} /\ inj = {} /\ rog = {}
 TSpec == TInit /\ [][TStep]_tvars
 
 Track  == TLCSet(1, IF TLCGet(1) < l THEN l ELSE TLCGet(1))
